@@ -38,7 +38,7 @@ func (c12) Info(t core.Tier) core.Info {
 	}
 }
 
-func (c12) NumCases(t core.Tier) int { return tierN(t, 20000, 500000) }
+func (c12) NumCases(t core.Tier) int { return tierN(t, 20000, 1200000) }
 
 type cbEvent struct {
 	kind    string // test | post | pre
